@@ -11,7 +11,7 @@ struct GRcpt {
   int outstanding = -1;      // delnum of the command in flight, -1 none
   int cmds = 0;              // commands issued
   int cmds_since_boot = 0;
-  char last_verdict = 0;     // verdict letter of the report written for the in-flight/last command (0 none since command)
+  char last_verdict = 0; char maybe_verdict = 0;     // verdict letter of the report written for the in-flight/last command (0 none since command)
   bool verdict_is_wellformed = false;
   int k_reports = 0, d_reports = 0;
   bool k_done = false;       // marked after a K report
@@ -69,6 +69,7 @@ struct WorldQ : World {
   int64_t lifetime = 604800;
   std::map<std::string, std::vector<Attempt>> scripts;   // by recipient as seen by the spawner
   std::map<std::string, int> attempt_no;
+  std::vector<std::pair<int, std::string>> junk[2];   // (after this many commands, bytes) per channel
   std::string default_verdict = "K";
   Sink *logsink = nullptr;
   // ghost
@@ -82,7 +83,7 @@ struct WorldQ : World {
   bool had_crash = false, had_lossy_crash = false, had_proc_crash = false;
   bool io_faults_in_daemon = false;
   int outstanding_count[2] = {0, 0};
-  std::set<int> delnum_used[2]; std::string cmdbuf[2];
+  std::set<int> delnum_used[2]; std::string cmdbuf[2], repbuf[2]; bool greeted[2] = {false, false}; std::map<int, std::string> floating[2];
   int eff_conc[2] = {0, 0};
   // bounce injection tracking (qmail-send's injectbounce is synchronous)
   uint64_t bounce_open_n = 0; int bounce_child_pid = 0; int bounce_child_status = -1; bool bounce_child_seen = false;
